@@ -778,6 +778,14 @@ def build_xlsx(seed: int, feature: str | None = None, twin: bool = False):
                 name = f"image{img_no}{im['ext']}"
                 parts[f"xl/media/{name}"] = im["data"]
                 drels.append((f"rId{img_no}", REL_T + "image", f"../media/{name}", None))
+                pic_xml = (f'<xdr:pic><xdr:nvPicPr><xdr:cNvPr id="{img_no}" name="Pic {img_no}" descr="d"/><xdr:cNvPicPr/></xdr:nvPicPr>'
+                           f'<xdr:blipFill><a:blip xmlns:r="{R_NS}" r:embed="rId{img_no}"/><a:stretch><a:fillRect/></a:stretch></xdr:blipFill><xdr:spPr/></xdr:pic><xdr:clientData/>')
+                if risky != "image-size-unknown" and random.Random(f"xlsx-anchor:{seed}:{img_no}").random() < 0.4:
+                    # Excel's default anchor: two cells, no extent - the pixel size can only come from the picture file itself
+                    anchors.append(f'<xdr:twoCellAnchor><xdr:from><xdr:col>1</xdr:col><xdr:colOff>0</xdr:colOff><xdr:row>{img_no}</xdr:row><xdr:rowOff>0</xdr:rowOff></xdr:from>'
+                                   f'<xdr:to><xdr:col>3</xdr:col><xdr:colOff>0</xdr:colOff><xdr:row>{img_no + 2}</xdr:row><xdr:rowOff>0</xdr:rowOff></xdr:to>{pic_xml}</xdr:twoCellAnchor>')
+                    exp.images.append({"sha": im["sha"], "ctype": im["ctype"], "w": im["w"] or None, "h": im["h"] or None, "unit": s + 1})
+                    continue
                 anchors.append(f'<xdr:oneCellAnchor><xdr:from><xdr:col>1</xdr:col><xdr:colOff>0</xdr:colOff><xdr:row>{img_no}</xdr:row><xdr:rowOff>0</xdr:rowOff></xdr:from>'
                                f'<xdr:ext cx="{im["w"] * 9525}" cy="{im["h"] * 9525}"/><xdr:pic><xdr:nvPicPr><xdr:cNvPr id="{img_no}" name="Pic {img_no}" descr="d"/><xdr:cNvPicPr/></xdr:nvPicPr>'
                                f'<xdr:blipFill><a:blip xmlns:r="{R_NS}" r:embed="rId{img_no}"/><a:stretch><a:fillRect/></a:stretch></xdr:blipFill><xdr:spPr/></xdr:pic><xdr:clientData/></xdr:oneCellAnchor>')
